@@ -874,6 +874,8 @@ pub struct Outcome {
     pub steps: u64,
     pub vtime_end: u64,
     pub replay_diverged: bool,
+    /// the setup program did not run to completion (a setup operation never resolved)
+    pub setup_failed: bool,
 }
 
 pub struct RunOutput {
@@ -966,8 +968,16 @@ pub fn run_scenario(sc: &Scenario) -> RunOutput {
             .collect();
         CANCELS.with(|c| *c.borrow_mut() = cancels);
 
-        // ---- clients
+        // ---- setup program (alone with the actors it spawns)
         let mail: Mail = Rc::new(RefCell::new(BTreeMap::new()));
+        if !sc.setup.is_empty() {
+            let ok = drive_task(client_main(SETUP_CLIENT, sc.setup.clone(), mail.clone()), PHASE1_CAP);
+            if !ok {
+                outcome.setup_failed = true;
+            }
+        }
+
+        // ---- clients
         let n_clients = sc.clients.len();
         let done_count = Rc::new(std::cell::Cell::new(0usize));
         log(Ev::Phase(Phase::ClientsStarted));
